@@ -22,7 +22,7 @@ ASSUMPTIONS = [
 MANIFEST = {'text': 'structural necessary conditions of table/message agreement: count increments paired with label stores on all paths of new/update, merge transfers the count, every merge relabels '
                     'queued and current messages, every merge site shows the merged lifecycle was never published (or unpublishes it), comparators over lifecycles are key-based.'
                     " Added: the published table is written only through update/empty/purge/refresh (every key holds exactly one value); delivered messages had their lifecycle marked for the final refresh; the listing's sort key follows the resume links transitively. Added: the regular refresh leaves its scan loops early only when no marked lifecycle is left to republish.",
-            'technique': 'static analysis: MIR path pairing, typestate after merge sites, comparator totality lint'}
+            'technique': 'static analysis: MIR path pairing, typestate after merge sites, comparator totality lint Added: every refresh of the table is followed by an increment of the refresh index before the next table write, hand-over or return (no two publications under one stamp).'}
 
 
 def run(F, chk):
@@ -32,6 +32,7 @@ def run(F, chk):
     P4 = chk.rule('P4', 'every merge site shows that the merged lifecycle was never published (buffered_lcs.contains evidence) or removes it from the published table')
     O1 = chk.rule('O1', 'comparators that order lifecycles are key-based (same key of both arguments): total by construction')
     P5 = chk.rule('P5', 'every message handed to the outflow had its lifecycle marked for the table refresh (or just updated) since it was taken; mark-skipping caches are invalidated by every clear of the list')
+    P9 = chk.rule('P9', 'every refresh of the table is followed by an increment of the refresh index before the next table write, refresh, hand-over or return (no two publications under one stamp)')
     P7 = chk.rule('P7', 'a possibly confirmed lifecycle is merged away only when all of its messages are still queued (queued count == nr_msgs)')
     check_update(F, P1)
     check_new(F, P1)
@@ -42,6 +43,7 @@ def run(F, chk):
         check_unpublish(F, st, P4)
         check_marked(F, st, P5)
         check_merge_needs_all_queued(st, P7)
+        check_refresh_stamp(F, st, P9)
         P8 = chk.rule('P8', 'the regular refresh republishes every marked lifecycle: its scan loops are left early only when the count of marked lifecycles still to update reached 0')
         check_refresh_scan_complete(F, st, P8)
     P3.floor('lifecycle stage functions', len(lcstage.find_stage(F)), 1)
@@ -722,6 +724,67 @@ def check_merge_needs_all_queued(st, P7):
                          'a lifecycle with already delivered messages can be merged away - those messages keep an id that denotes no lifecycle and the counts no longer add up' % body.loc(body.blocks[m].term.sp),
                          where=body.loc(body.blocks[m].term.sp))
     P7.floor('merge sites with a possibly confirmed merged lifecycle', n, 1)
+
+
+# ---------------------------------------------------------------------------------------------
+# P9: every refresh gets its own stamp
+
+def check_refresh_stamp(F, st, P9):
+    """Published items carry the refresh index they were written with (`new_lifecycle_item(lc, idx)`); consumers that follow the
+    table incrementally (the remote server) skip everything whose stamp they have already seen.  So no two refreshes may
+    publish under the same stamp: after every refresh() the index is incremented before the next table write, the next
+    refresh, the next hand-over of a message or the return.  (Otherwise a consumer that looks at the table between two such
+    refreshes - a matter of pacing - ignores the second publication and ends with a stale table.)"""
+    from cfg import CFG
+    from facts import Operand
+    bodies = [st.body] + [F.get(st.info[bi]['closure']) for bi in st.blocks_with('W_CLOSURE') if F.get(st.info[bi]['closure']) is not None]
+    n = 0
+    for b in bodies:
+        cfg = st.cfg if b is st.body else CFG(b)
+        E = ExprBuilder(cfg, fold_named=True)
+        E0 = ExprBuilder(cfg)
+        P9.fn(b.path)
+        # the stamp: second argument of new_lifecycle_item
+        stamps = set()
+        for blk in b.calls():
+            if blk.term.callee.path.endswith('::new_lifecycle_item') and len(blk.term.args) >= 2:
+                stamps.add(show(E0.operand(blk.term.args[1])).lstrip('&'))
+                stamps.add(show(E.operand(blk.term.args[1])).lstrip('&'))        # `let idx = *last_refresh_index; .. item(lc, idx)`: the counter behind the copy
+        if not stamps:
+            continue
+        inc_blocks = set()
+        for blk in b.blocks:
+            if blk.cleanup:
+                continue
+            for s_ in blk.stmts:
+                if s_.k == 'assign' and show(E0.target(s_.place)) in stamps:
+                    inc_blocks.add(blk.i)
+        cleans = [blk.i for blk in b.calls() if lcstage.W_CLEAN.match(blk.term.callee.path)]
+        stops = set()
+        for blk in b.calls():
+            p = blk.term.callee.path
+            if lcstage.W_CLEAN.match(p) or lcstage.W_DIRTY.match(p):
+                stops.add(blk.i)
+        if b is st.body:
+            stops |= set(st.blocks_with('SEND')) | set(st.blocks_with('W_CLOSURE'))
+        for c in cleans:
+            t = b.blocks[c].term
+            if t.d.get('t') is None:
+                continue
+            n += 1
+            P9.sites += 1
+            if t.d['t'] in inc_blocks:
+                region = set()
+            else:
+                region = cfg.reachable_from(t.d['t'], avoid=inc_blocks)
+            hit = sorted(x for x in region if x in stops or x in cfg.exits)
+            if hit:
+                what = 'the return' if hit[0] in cfg.exits and hit[0] not in stops else b.blocks[hit[0]].term.callee.path.split('::')[-1] if b.blocks[hit[0]].term.k == 'call' else 'the return'
+                P9.violation(('refresh-without-new-stamp', b.path), 'after the refresh at %s the refresh index is not incremented before %s (%s): the next publication carries a stamp that consumers following the table have already seen - they ignore it and keep a stale table' %
+                             (b.loc(t.sp), what, b.loc(b.blocks[hit[0]].term.sp)), where=b.loc(t.sp))
+            else:
+                P9.ok(sample={'refresh_at': b.loc(t.sp), 'stamp': sorted(stamps)[0], 'incremented_before': 'next table write / hand-over / return'})
+    P9.floor('refresh sites with a stamped publication', n, 3)
 
 
 # ---------------------------------------------------------------------------------------------
